@@ -249,22 +249,38 @@ Qed.
 
 (* ------------------------------------------------------------------ e2v *)
 (* the directed edges, one per column *)
-Definition e2v_edges (adj : bmat) (self_loop : bool) : list (nat * nat) :=
-  if self_loop then bcoo adj else map fst (zcoo (minus_eye adj)).
+Definition e2v_edges (adj : bmat) (self_loop strict : bool) : list (nat * nat) :=
+  if self_loop then bcoo adj
+  else if strict then filter (fun p => negb (Nat.eqb (fst p) (snd p))) (bcoo adj)
+  else map fst (zcoo (minus_eye adj)).
 
-Lemma e2v_sources_edges adj sl : e2v_sources adj sl = map fst (e2v_edges adj sl).
-Proof. unfold e2v_sources, e2v_edges. destruct sl; [reflexivity|]. now rewrite map_map. Qed.
+Lemma e2v_sources_edges adj sl st : e2v_sources adj sl st = map fst (e2v_edges adj sl st).
+Proof.
+  unfold e2v_sources, e2v_edges. destruct sl; [reflexivity|]. destruct st; [reflexivity|].
+  now rewrite map_map.
+Qed.
 
-Lemma NoDup_e2v_edges adj sl : NoDup (e2v_edges adj sl).
-Proof. unfold e2v_edges. destruct sl; [apply NoDup_bcoo|apply NoDup_zcoo_pos]. Qed.
+Lemma NoDup_e2v_edges adj sl st : NoDup (e2v_edges adj sl st).
+Proof.
+  unfold e2v_edges. destruct sl; [apply NoDup_bcoo|].
+  destruct st; [apply NoDup_filter, NoDup_bcoo|apply NoDup_zcoo_pos].
+Qed.
 
 (* which pairs get a column *)
-Lemma in_e2v_edges_loop adj r c :
-  In (r, c) (e2v_edges adj true) <-> r < bnr adj /\ c < bnc adj /\ entry adj r c = true.
+Lemma in_e2v_edges_loop adj st r c :
+  In (r, c) (e2v_edges adj true st) <-> r < bnr adj /\ c < bnc adj /\ entry adj r c = true.
 Proof. apply in_bcoo. Qed.
 
+Lemma in_e2v_edges_strict adj r c :
+  In (r, c) (e2v_edges adj false true) <->
+  r < bnr adj /\ c < bnc adj /\ r <> c /\ entry adj r c = true.
+Proof.
+  unfold e2v_edges. rewrite filter_In, in_bcoo. simpl.
+  rewrite negb_true_iff, Nat.eqb_neq. tauto.
+Qed.
+
 Lemma in_e2v_edges_noloop adj r c :
-  In (r, c) (e2v_edges adj false) <->
+  In (r, c) (e2v_edges adj false false) <->
   r < bnr adj /\ c < bnc adj /\
   ((r <> c /\ entry adj r c = true) \/ (r = c /\ entry adj r r = false)).
 Proof.
@@ -285,35 +301,43 @@ Proof.
       * subst c. rewrite E, Nat.eqb_refl. simpl. lia.
 Qed.
 
-Lemma e2v_shape adj sl :
-  znr (e2v_of adj sl) = bnr adj /\ znc (e2v_of adj sl) = length (e2v_edges adj sl).
+Lemma e2v_shape adj sl st :
+  znr (e2v_of adj sl st) = bnr adj /\ znc (e2v_of adj sl st) = length (e2v_edges adj sl st).
 Proof.
   split; [reflexivity|]. unfold e2v_of. simpl. now rewrite e2v_sources_edges, map_length.
 Qed.
 
 (* column k is the indicator of the source vertex of the k-th directed edge *)
-Lemma e2v_column adj sl k :
-  k < length (e2v_edges adj sl) ->
-  exists r c, nth_error (e2v_edges adj sl) k = Some (r, c) /\
-    forall v, v < bnr adj -> zentry (e2v_of adj sl) v k = if Nat.eqb v r then 1%Z else 0%Z.
+Lemma e2v_column adj sl st k :
+  k < length (e2v_edges adj sl st) ->
+  exists r c, nth_error (e2v_edges adj sl st) k = Some (r, c) /\
+    forall v, v < bnr adj -> zentry (e2v_of adj sl st) v k = if Nat.eqb v r then 1%Z else 0%Z.
 Proof.
-  intros Hk. destruct (nth_error (e2v_edges adj sl) k) as [[r c]|] eqn:E.
+  intros Hk. destruct (nth_error (e2v_edges adj sl st) k) as [[r c]|] eqn:E.
   - exists r, c. split; [reflexivity|]. intros v Hv.
     unfold e2v_of. rewrite zentry_zmk.
-    assert (Hk' : k <? length (e2v_sources adj sl) = true).
+    assert (Hk' : k <? length (e2v_sources adj sl st) = true).
     { apply Nat.ltb_lt. now rewrite e2v_sources_edges, map_length. }
     apply Nat.ltb_lt in Hv. rewrite Hv, Hk'. simpl.
     rewrite e2v_sources_edges. rewrite (map_nth_error fst _ _ E). reflexivity.
   - apply nth_error_None in E. lia.
 Qed.
 
-Lemma e2v_edge_unique adj sl r c :
-  In (r, c) (e2v_edges adj sl) ->
-  exists k, nth_error (e2v_edges adj sl) k = Some (r, c) /\
-    forall k', nth_error (e2v_edges adj sl) k' = Some (r, c) -> k' = k.
+Lemma e2v_edge_unique adj sl st r c :
+  In (r, c) (e2v_edges adj sl st) ->
+  exists k, nth_error (e2v_edges adj sl st) k = Some (r, c) /\
+    forall k', nth_error (e2v_edges adj sl st) k' = Some (r, c) -> k' = k.
 Proof.
   intros Hin. apply In_nth_error in Hin. destruct Hin as [k Hk]. exists k. split; [exact Hk|].
-  intros k' Hk'. eapply (proj1 (NoDup_nth_error _) (NoDup_e2v_edges adj sl)).
+  intros k' Hk'. eapply (proj1 (NoDup_nth_error _) (NoDup_e2v_edges adj sl st)).
   - apply nth_error_Some. congruence.
   - congruence.
+Qed.
+
+Lemma zentry_zero_diag A i j :
+  i < bnr A -> j < bnc A ->
+  zentry (zero_diag A) i j = if Nat.eqb i j then 0%Z else b2z (entry A i j).
+Proof.
+  intros Hi Hj. unfold zero_diag. rewrite zentry_zmk.
+  apply Nat.ltb_lt in Hi, Hj. rewrite Hi, Hj. reflexivity.
 Qed.
